@@ -221,6 +221,12 @@ pub fn default_static(ptype: PointType) -> StaticVal {
 /// `also_ok` are ids discarded during the current step (still acceptable in fragments of this step).
 /// Returns the matched ids, or the index of the first object that matches nothing.
 pub fn match_events(ledger: &Ledger, events: &[&Meas], also_ok: &[u64]) -> Result<Vec<u64>, usize> {
+    match_events_before(ledger, events, also_ok, None)
+}
+
+/// as `match_events`, considering only events with an id up to `max_id`: a fragment can only carry events that existed when
+/// the session took the database lock to write it
+pub fn match_events_before(ledger: &Ledger, events: &[&Meas], also_ok: &[u64], max_id: Option<u64>) -> Result<Vec<u64>, usize> {
     let mut ids: Vec<u64> = Vec::new();
     for (i, m) in events.iter().enumerate() {
         let candidates: Vec<&LedgerEvent> = ledger
@@ -228,6 +234,7 @@ pub fn match_events(ledger: &Ledger, events: &[&Meas], also_ok: &[u64]) -> Resul
             .values()
             .filter(|e| e.state == EvState::Live || (e.state == EvState::Discarded && also_ok.contains(&e.id)))
             .filter(|e| !ids.contains(&e.id))
+            .filter(|e| max_id.map(|m| e.id <= m).unwrap_or(true))
             .filter(|e| Ledger::matches(e, m))
             .collect();
         let last = ids.last().copied();
